@@ -17,7 +17,7 @@ use crate::sched::{self, PointRec};
 pub fn meta() -> Meta {
     Meta {
         level: "model_checking",
-        rule: "stateless exploration of ALL schedules with at most 2 preemptions (thorough: 3 for the two-thread scripts) of 14 scripts with 1..3 application threads on a fresh real manager per execution (64 nodes, apply cache 16, 3 variables): S1 two threads compute the same conjunction; S2 recomputation vs. gc with the dead result still in the unique table and apply cache; S3 a different operator on shared operands vs. gc; S4 drop vs. gc vs. clone+or; S5 one thread running the multi-threaded ite/and with split depth 2 (fork/join through the hook spawns controlled threads); S6 gc vs. gc vs. xor; S8 add_vars (exclusive lock) vs. and; S9 two allocating threads on a 12-node manager; S10 ZBDD not (tautology chain) vs. gc; S11 quantification vs. gc vs. quantification; S12 compute-drop-recompute vs. gc; S16 model counting of live functions through a count cache filled before the collection, both threads inside a session of another manager (freed slots are recycled while the collection runs);  S13 ite / S14 or+and on operands (x0 ? x1 : x2), (x0 ? !x2 : x2) with split depth 2 (forked joins) on a store with room for the operands plus 0..3 nodes (OutOfMemory inside one branch of a join while the sibling succeeds; failing operations are allowed, the reference counts and the node count after teardown must still be exact); G1 the background collector as a controlled thread on a 160-node store (marks 90/95) that holds 72 live and 18 dead nodes: the application thread builds A, builds and drops B, builds C and D, crossing the high water mark up to twice (all schedules with <= 2 preemptions, about 50 000 per kind, split into 16 disjoint parts of the schedule tree; thorough: G2 = the same work split over two application threads); kinds bdd, bcdd, zbdd; MTBDD<I64>: M1 add with a fresh constant, constant dropped, another fresh constant (terminal slot recycling) vs. gc; M2 two threads creating the same new terminal vs. gc. Scheduling points: every level / store-state / manager-RwLock / terminal / cache-bucket lock acquisition (blocking ones with a readiness predicate, so deadlock = no enabled thread is detected), cache try-locks, gc try-lock and phases, handle clone/drop, fork/join. Oracle per execution (G1/G2 additionally: the store can be refilled to its full capacity afterwards): every result has the model's table and equals the handle obtained by recomputing sequentially in the same manager afterwards; no panic / deadlock; full audit with exact reference counts; after dropping everything + gc the initial node count. states = distinct (schedule outcome signatures), transitions = scheduling decisions taken, executions = schedules run.",
+        rule: "stateless exploration of ALL schedules with at most 2 preemptions (thorough: 3 for the two-thread scripts) of 14 scripts with 1..3 application threads on a fresh real manager per execution (64 nodes, apply cache 16, 3 variables): S1 two threads compute the same conjunction; S2 recomputation vs. gc with the dead result still in the unique table and apply cache; S3 a different operator on shared operands vs. gc; S4 drop vs. gc vs. clone+or; S5 one thread running the multi-threaded ite/and with split depth 2 (fork/join through the hook spawns controlled threads); S6 gc vs. gc vs. xor; S8 add_vars (exclusive lock) vs. and; S9 two allocating threads on a 12-node manager; S10 ZBDD not (tautology chain) vs. gc; S11 quantification vs. gc vs. quantification; S12 compute-drop-recompute vs. gc; S16 model counting of live functions through a count cache filled before the collection, both threads inside a session of another manager (freed slots are recycled while the collection runs);  S13 ite / S14 or+and on operands (x0 ? x1 : x2), (x0 ? !x2 : x2) with split depth 2 (forked joins) on a store with room for the operands plus 0..3 nodes (OutOfMemory inside one branch of a join while the sibling succeeds; failing operations are allowed, the reference counts and the node count after teardown must still be exact); G1 the background collector as a controlled thread on a 160-node store (marks 90/95) that holds 72 live and 18 dead nodes: the application thread builds A, builds and drops B, builds C and D, crossing the high water mark up to twice (all schedules with <= 2 preemptions, about 50 000 per kind, split into 16 disjoint parts of the schedule tree; thorough: G2 = the same work split over two application threads); kinds bdd, bcdd, zbdd; `deep` (bdd, bcdd; free-running, one case): x0 & ... & x29999 on a two-worker manager, negation and xor through all 30000 levels issued by the application thread (the recursion runs on the manager's workers; a stack overflow is the death of the isolated worker process), results checked by eval and handle equality; MTBDD<I64>: M1 add with a fresh constant, constant dropped, another fresh constant (terminal slot recycling) vs. gc; M2 two threads creating the same new terminal vs. gc. Scheduling points: every level / store-state / manager-RwLock / terminal / cache-bucket lock acquisition (blocking ones with a readiness predicate, so deadlock = no enabled thread is detected), cache try-locks, gc try-lock and phases, handle clone/drop, fork/join. Oracle per execution (G1/G2 additionally: the store can be refilled to its full capacity afterwards): every result has the model's table and equals the handle obtained by recomputing sequentially in the same manager afterwards; no panic / deadlock; full audit with exact reference counts; after dropping everything + gc the initial node count. states = distinct (schedule outcome signatures), transitions = scheduling decisions taken, executions = schedules run.",
         assumptions: vec![
             "at the instrumented points only sequentially consistent interleavings are explored (Relaxed/Acquire/Release reorderings are not modelled, and nothing can be interleaved between two atomic operations that have no scheduling point between them); the one lock that is built from raw atomics, the apply-cache bucket lock, is therefore also model-checked with loom (`loom:spinlock:*` shards: all interleavings and weak-memory behaviours of lock/try_lock/unlock for 2 threads, preemption bound 3 for 3 threads; the code is derived from the source text of oxidd-cache/src/util.rs at build time)".into(),
             "the background collector thread is a controlled thread in script G1 only (adopted through the daemon hook; its wait for the condition variable is modelled by a sticky notification flag, see DESIGN 8.8); in the other scripts the node stores (< 100 nodes) disable it and its effect, gc() under a shared manager lock at any point, is scheduled explicitly (S2-S4, S6, S10, S11)".into(),
